@@ -266,6 +266,43 @@ void run_vegas(vf::Ctx& c)
     c.nontrivial = nonuniform && !f.constant();
 }
 
+// many dimensions: the grid is non-uniform in dimension 0 only and the integrand depends on x_0 only, so a lattice
+// in that one dimension is a complete quadrature rule while the weight still is a product over all dimensions
+template <typename T>
+void run_vegas_highdim(vf::Ctx& c)
+{
+    vf::Tape& t = c.t;
+    std::size_t const dims = 4 + t.range(0, 96);
+    std::size_t const bins = t.flag() ? 128 : (t.flag() ? 1000 : 2 + t.range(0, 60));
+    std::size_t const m = 1 + t.pick(3);
+    std::string how;
+    hep::vegas_pdf<T> const one = gen_grid<T>(t, 1, bins, how);
+    hep::vegas_pdf<T> pdf(dims, bins);
+    for (std::size_t b = 0; b <= bins; ++b) { pdf.set_bin_left(0, b, one.bin_left(0, b)); }
+    Multilinear<T> f = gen_f<T>(t, 1);
+    f.dims = 1; // depends on x_0 only
+    std::size_t const N = bins * m;
+    std::vector<std::uint64_t> script;
+    std::uint64_t const ss = t.stream_seed();
+    for (std::size_t i = 0; i != N; ++i)
+    {
+        vf::push_canonical<T>(script, (i / m + (i % m + 0.5L) / m) / bins);
+        for (std::size_t k = 1; k != dims; ++k) { vf::push_canonical<T>(script, static_cast<long double>(vf::stream_unit(ss, i * dims + k))); }
+    }
+    vf::script_engine eng(script);
+    PointFn<T> fn{&f};
+    auto ig = hep::make_integrand<T>(fn, dims);
+    T const value = hep::vegas_iteration(ig, N, pdf, eng).value();
+    c.desc << vf::type_name<T>::get() << " VEGAS high-dimensional d=" << dims << " bins=" << bins << " m=" << m << " grid(dim 0)=" << how << ' ' << f.describe();
+    long double const expect = f.integral(std::vector<long double>(1, 0.0L), std::vector<long double>(1, 1.0L));
+    // the uniform dimensions contribute factors bins * (1/bins) = 1 +- eps each
+    judge<T>(c, value, expect, 64 * vf::eps<T>() * dims * f.magnitude(), "C01:vegas-biased", "VEGAS in " + std::to_string(dims) + " dimensions, lattice in dimension 0");
+    c.sub += N;
+    c.label("VEGAS");
+    c.label("vegas-high-dimension");
+    c.nontrivial = !f.constant() && how != "uniform";
+}
+
 template <typename T>
 void run_multi(vf::Ctx& c)
 {
@@ -407,7 +444,7 @@ void run(vf::Ctx& c)
     vf::with_type(c.t, [&](auto tag) {
         using T = decltype(tag);
         if (which == 0) { run_plain<T>(c); }
-        else if (which <= 2) { run_vegas<T>(c); }
+        else if (which <= 2) { if (c.t.pick(6) == 5) { run_vegas_highdim<T>(c); } else { run_vegas<T>(c); } }
         else { run_multi<T>(c); }
     });
 }
